@@ -64,7 +64,7 @@ impl Kind {
                     if let Some(array) = self.as_array_mut() {
                         let mut index = *index;
                         if index < 0 {
-                            let negative_index = (-index) as usize;
+                            let negative_index = index.unsigned_abs();
 
                             if array.unknown_kind().contains_any_defined() {
                                 let original = array.clone();
